@@ -15,10 +15,12 @@ T_Max == 1000000
 (* notes are paired in a canonical order (by tick, a note-off before a note-on of the same tick): a set_channel that
    fuses two channels can leave clashing notes, whose pairing in view order would depend on the view *)
 CanonLess(a, b) == a.t < b.t \/ (a.t = b.t /\ a.ty = "off" /\ b.ty # "off")
-ContentOf(evs, dur) == [bag |-> EventBag(evs), dur |-> dur, notes |-> Notes(SortSeq(evs, CanonLess))]
+ContentOf(evs, dur) == LET c == SortSeq(evs, CanonLess) IN
+    [bag |-> EventBag(evs), dur |-> dur, notes |-> Notes(c),
+     wf |-> Alternates(c) /\ NoOverlap(Notes(c)) /\ \A x \in Notes(c) : x.e > x.s]
 ContentAbs(abs) == ContentOf(AbsEvents(abs), AbsDur(abs))
 ContentRel(rel) == ContentOf(RelEvents(rel), RelDur(rel))
-NoContent == [bag |-> <<>>, dur |-> -1, notes |-> {}]
+NoContent == [bag |-> <<>>, dur |-> -1, notes |-> {}, wf |-> FALSE]
 ViewsContent(v) == IF v.readable THEN ContentAbs(v.abs) ELSE NoContent
 
 IsMutating(op) == op \in Mutating \/ op = "iter_edit"
@@ -30,7 +32,12 @@ TraceStep ==
                      relHolds |-> IF r.start.r THEN ViewsContent(r.pre) ELSE Nothing,
                      absFresh |-> r.start.a, relFresh |-> r.start.r, iter |-> "none"]
                ELSE s
-        c == IF IsMutating(r.op) THEN ViewsContent(r.exp) ELSE st0.truth
+        pa0 == ContentAbs(r.post.abs)
+        (* the history-free twin is rebuilt from the projected content; when that content is ill-formed (set_channel fused
+           two channels into clashing notes) an operation may legitimately depend on the order of equal-tick messages,
+           which the projection does not fix: the oracle is then not used and the observed content is taken as the truth *)
+        oracle == r.exp.readable /\ (st0.truth.wf \/ r.op = "iter_edit")   \* an in-turn edit's expectation is the iterated view itself
+        c == IF IsMutating(r.op) THEN (IF oracle THEN ViewsContent(r.exp) ELSE pa0) ELSE st0.truth
         st1 == IF r.op \in FineOps THEN ApplyFine(st0, r.op, c) ELSE Apply(st0, r.op, c)
         legal == (r.op \in FineOps \/ Enabled(st0, r.op)) /\ Readable(st1)
         pa == ContentAbs(r.post.abs)
@@ -39,8 +46,8 @@ TraceStep ==
                    ELSE << <<"views-agree.events", pa.bag = pr.bag>>,
                            <<"views-agree.duration", pa.dur = pr.dur>>,
                            <<"views-agree.notes", pa.notes = pr.notes>>,
-                           <<"effect-visible.abs", (~IsMutating(r.op) \/ r.exp.readable) => pa = c>>,
-                           <<"effect-visible.rel", (~IsMutating(r.op) \/ r.exp.readable) => pr = c>>,
+                           <<"effect-visible.abs", (~IsMutating(r.op) \/ oracle) => pa = c>>,
+                           <<"effect-visible.rel", (~IsMutating(r.op) \/ oracle) => pr = c>>,
                            <<"op-raised-stale", ~r.stale_raised>> >>
         drift == r.bits # <<>> /\ (r.bits[1] # ~st1.absFresh \/ r.bits[2] # ~st1.relFresh)
     IN /\ s' = st1
